@@ -229,6 +229,17 @@ FLOAT_SLOTS = {"ctime", "utime", "stime", "ch_utime", "ch_stime", "cutime", "cst
                "dpc", "tstamp"}
 
 
+_A4, _A6, _AU = socket.AF_INET, socket.AF_INET6, socket.AF_UNIX
+_ST, _DG, _SP = socket.SOCK_STREAM, socket.SOCK_DGRAM, socket.SOCK_SEQPACKET
+# docs/index.rst net_connections() "kind" table (what the NetBSD native filters by)
+KIND_MAP = {
+    "all": ({_A4, _A6, _AU}, {_ST, _DG, _SP}), "tcp": ({_A4, _A6}, {_ST}), "tcp4": ({_A4}, {_ST}),
+    "tcp6": ({_A6}, {_ST}), "udp": ({_A4, _A6}, {_DG}), "udp4": ({_A4}, {_DG}), "udp6": ({_A6}, {_DG}),
+    "unix": ({_AU}, {_ST, _DG, _SP}), "inet": ({_A4, _A6}, {_ST, _DG}), "inet4": ({_A4}, {_ST, _DG}),
+    "inet6": ({_A6}, {_ST, _DG}),
+}
+
+
 def family(platform):
     return "bsd" if platform in ("freebsd", "openbsd", "netbsd") else platform
 
@@ -355,6 +366,8 @@ class Stub:
         if fault is not None:
             c.fired = fault
             self.fired.append((c.fidx, name, fault))
+            if self.world.gone_on_fire:
+                self.world.state = "gone"
             raise self.world.make_oserror(fault, name)
         return c
 
@@ -412,6 +425,26 @@ class TimeProxy:
         return getattr(self._r, n)
 
 
+class FakeGlob:
+    """Stands in for `glob` inside the aix module: host /dev entries that cannot be stat()ed are a host artefact."""
+
+    def __init__(self, real):
+        self._real = real
+
+    def glob(self, pattern, **kw):
+        out = []
+        for n in self._real.glob(pattern, **kw):
+            try:
+                os.stat(n)
+            except OSError:
+                continue
+            out.append(n)
+        return out
+
+    def __getattr__(self, n):
+        return getattr(self._real, n)
+
+
 class FakeSubprocess:
     """Stands in for the `subprocess` module inside the sunos / aix platform modules."""
     PIPE = -1
@@ -453,6 +486,7 @@ class World:
         self.plat = None
         self.vk = None
         self.fs = None
+        self.gone_on_fire = False       # scenario: the pid vanishes at the moment the first fault fires
         self.reset()
 
     # -- scenario ---------------------------------------------------------------------------------
@@ -593,7 +627,7 @@ class World:
         ls = [1, 77]
         if self.pid0_listed:
             ls.insert(0, 0)
-        if self.state != "gone" and self.pid not in ls:
+        if self.state != "gone" and self.pid not in ls and self.pid != 0:
             ls.append(self.pid)
         if self.state == "gone" and self.pid in ls and self.pid != 0:
             ls.remove(self.pid)
@@ -676,15 +710,30 @@ class World:
         return [(REAL_FILE, 3), ("/nonexistent/gone", 4)]
 
     def n_proc_net_connections(self, c, pid, families, types):
-        return self.conn_rows()
+        # both natives (arch/freebsd/proc_socks.c, arch/osx/proc.c) filter by the two sequences
+        return [r for r in self.conn_rows() if r[1] in families and r[2] in types]
 
-    def n_net_connections(self, c, pid, *a):
-        # openbsd/netbsd/sunos/aix/windows: per-process when pid != -1
+    def n_net_connections(self, c, *args):
+        """freebsd: (families, types) system-wide; openbsd/windows: (pid, families, types); netbsd: (pid, kind);
+        sunos/aix: (pid). Rows carry the owning pid as 7th slot; the C code filters by pid itself."""
+        p = self.platform
+        if p == "freebsd":
+            pid, flt = -1, (set(args[0]), set(args[1]))
+        else:
+            pid = args[0]
+            flt = None
+            if p in ("openbsd", "windows"):
+                flt = (set(args[1]), set(args[2]))
+            elif p == "netbsd":
+                flt = KIND_MAP[args[1]]
         if pid == -1:
             rows = self.conn_rows(with_pid=self.pid)
             rows.append((-1, socket.AF_INET, socket.SOCK_STREAM, ("9.9.9.9", 9), (), rows[1][5], 77))
-            return rows
-        return self.conn_rows(with_pid=pid)      # the C code filters by pid itself
+        else:
+            rows = self.conn_rows(with_pid=pid)
+        if flt is not None:
+            rows = [r for r in rows if r[1] in flt[0] and r[2] in flt[1]]
+        return rows
 
     def n_proc_memory_uss(self, c, pid):
         return 4242 + self.salt
@@ -919,7 +968,7 @@ class World:
         c = self.stub.enter("fs:" + kind, (path,), pid == self.pid)   # raises the planned fault
         if pid is not None and pid == self.pid and self.state == "gone" and (c.probe or c.predicate):
             return OSError(errno.ENOENT, os.strerror(errno.ENOENT), path)
-        if pid == 0 and not self.pid0_listed:
+        if pid == 0 and not self.pid0_listed and (c.probe or self.pid != 0):
             return OSError(errno.ENOENT, os.strerror(errno.ENOENT), path)
         return None
 
@@ -933,7 +982,7 @@ class World:
         if self.pid0_listed:
             pids.insert(0, 0)
         if self.pid not in pids:
-            pids.append(self.pid)
+            pids.append(self.pid)       # /proc/0 unlisted: fs_rule answers ENOENT for it
         for pid in pids:
             fs.put(f"{pid}/psinfo", F(b"psinfo"))
             if p == "sunos":
@@ -952,6 +1001,10 @@ class World:
                     fs.put(f"{pid}/fd/{n}", F(b""))
             elif p == "netbsd":
                 fs.put(f"{pid}/exe", L("/usr/pkg/bin/python3.9"))
+        listed = [str(x) for x in pids if x != 0 or self.pid0_listed]
+        if p == "netbsd":
+            listed += ["meminfo", "stat"]
+        fs.files[""] = vkernel.D(listed)      # what listdir("/proc") shows (an unlisted PID 0 stays queryable)
         if p == "netbsd":
             fs.put("meminfo", F(b"MemTotal: 100 kB\nBuffers:   %d kB\nMemShared: %d kB\n"
                                 % (640 + self.salt, 320 + self.salt)))
@@ -970,10 +1023,12 @@ class World:
                     b"      O_RDWR\n\tSOCK_STREAM\n\tSO_REUSEADDR\n\tsockname: AF_UNIX /tmp/sock.b\n" % self.pid)
         if "procfiles" in c:
             return (b"%d : /usr/bin/python\n  Current rlimit: 2000 file descriptors\n"
-                    b"   3: S_IFREG mode:0644 dev:10,5 ino:4103 uid:0 gid:0 rdev:0,0\n"
-                    b"      O_RDONLY size:123  name:/etc/passwd \n"
-                    b"   4: S_IFREG mode:0644 dev:10,5 ino:4104 uid:0 gid:0 rdev:0,0\n"
-                    b"      O_RDONLY size:1  name:Cannot be retrieved\n" % self.pid)
+                    b"   3: S_IFREG mode:0644 dev:10,5 ino:4103 uid:0 gid:0 rdev:0,0 O_RDONLY size:123  "
+                    b"name:/etc/passwd \n"
+                    b"   4: S_IFREG mode:0644 dev:10,5 ino:4104 uid:0 gid:0 rdev:0,0 O_RDONLY size:1  "
+                    b"name:Cannot be retrieved\n"
+                    b"   5: S_IFCHR mode:0620 dev:10,4 ino:99 uid:0 gid:0 rdev:28,1 O_RDWR name:/dev/pts/1\n"
+                    % self.pid)
         if cmd[0] == "lsdev":
             return b"proc0 Available 00-00 Processor\nproc4 Available 00-04 Processor\n"
         if "entstat" in c:
@@ -1106,6 +1161,9 @@ def load(platform):
         w.plat.time = TimeProxy(w.clock, _time)
     if hasattr(w.plat, "subprocess"):
         w.plat.subprocess = FakeSubprocess(w)
+    if platform == "aix" and hasattr(w.plat, "glob"):
+        import glob as _glob
+        w.plat.glob = FakeGlob(_glob)
     px = sys.modules.get("psutil._psposix")
     if px is not None:
         d = list(px.wait_pid.__defaults__)
